@@ -23,7 +23,7 @@ Definition pc_class (w : world) (t : nat) : Z :=
   | _ => 6
   end.
 Definition vv_target (w : world) (t : nat) : option nat :=
-  match t_pc (get w t) with VV _ p => Some (owner (recs w p)) | _ => None end.
+  match t_pc (get w t) with VV _ o => Some o | _ => None end.
 Definition wait_is_cancellable (w : world) (t : nat) : bool :=
   match t_pc (get w t) with WSem l => w_can l | _ => false end.
 Definition last_ret (w : world) (t : nat) : option ret := match rets (get w t) with r :: _ => Some r | [] => None end.
@@ -32,3 +32,5 @@ Definition mu_spin_free (w : world) : bool := negb (has (muw w) MU_SPINLOCK).
 Definition rec_owner (w : world) (r : nat) : nat := owner (recs w r).
 Definition rec_native (w : world) (r : nat) : bool := is_mucv (recs w r).
 Definition lock_field (v : Z) : Z := mu_lockf v.
+Definition owed_of (w : world) (t : nat) : Z := owed w t.
+Definition wlog_len (w : world) : nat := length (wlog w).
